@@ -9,7 +9,7 @@ package mount
 
 //@ spec cand(k string, p string) := k == p || hasPrefix(p, k + "/")
 
-//@ type FS invariant fs: forall(k, dom(fs.mounts), VP(k) && k != ".")
+//@ type FS invariant fs: fs.rootFS != nil && forall(k, dom(fs.mounts), VP(k) && k != "." && fs.mounts[k] != nil)
 
 //@ func (fs *FS) mountPoint(path string) (m hackpadfs.FS, mountPoint string, subPath string)
 //@   props C06
@@ -27,4 +27,27 @@ package mount
 //@   ensures "selected" (mountPoint == "." && m == fs.rootFS && forall(k, dom(fs.mounts), !cand(k, path))) ||
 //@                      (in(mountPoint, dom(fs.mounts)) && cand(mountPoint, path) && m == fs.mounts[mountPoint])
 //@   ensures "remainder" implies(VP(path), VP(subPath) && pjoin(mountPoint, subPath) == path)
+//@   nopanic
+
+//@ func (fs *FS) Mount(path string) (mount hackpadfs.FS, subPath string)
+//@   props C06 C04
+//@   deterministic
+//@   requires fs != nil
+//@   use vpBasic(path)
+//@   ensures "invalid" implies(!VP(path), mount == fs.rootFS && subPath == path)
+//@   ensures "root" implies(VP(path) && forall(k, dom(fs.mounts), !cand(k, path)), mount == fs.rootFS && subPath == path)
+//@   ensures "routed" implies(VP(path) && exists(k, dom(fs.mounts), cand(k, path)),
+//@                      exists(mp, dom(fs.mounts), cand(mp, path) && forall(k, dom(fs.mounts), implies(cand(k, path), len(k) <= len(mp))) &&
+//@                             mount == fs.mounts[mp] && VP(subPath) && pjoin(mp, subPath) == path))
+//@   ensures "nonnil" mount != nil
+//@   pure
+//@   nopanic
+
+//@ func (fs *FS) Open(name string) (f hackpadfs.File, err error)
+//@   props C06 C04
+//@   requires fs != nil
+//@   ensures "delegates" f == old(ret("hackpadfs.(FS).Open", 0, ret("mount.(*FS).Mount", 0, fs, name), ret("mount.(*FS).Mount", 1, fs, name))) &&
+//@                       err == old(ret("hackpadfs.(FS).Open", 1, ret("mount.(*FS).Mount", 0, fs, name), ret("mount.(*FS).Mount", 1, fs, name))) &&
+//@                       world() == old(worldAfter("hackpadfs.(FS).Open", ret("mount.(*FS).Mount", 0, fs, name), ret("mount.(*FS).Mount", 1, fs, name)))
+//@   ensures "gate" implies(!VP(name), errIs(err, hackpadfs.ErrInvalid) && world() == old(world()))
 //@   nopanic
